@@ -536,7 +536,14 @@ func checkAlign(r *core.Run, info *types.Info, fd *ast.FuncDecl) {
 			}
 		case *ast.SliceExpr:
 			if id, ok := d.X.(*ast.Ident); ok && id.Name == into && d.High == nil && d.Low != nil {
-				if b, ok := core.Unparen(d.Low).(*ast.BinaryExpr); ok && b.Op == token.SUB && lenOrAlias(info, fd, b.X, into) && lenOrAlias(info, fd, b.Y, v) {
+				low := core.Unparen(d.Low)
+				if lid, isID := low.(*ast.Ident); isID {
+					// padding := len(into) - len(v); into[padding:]
+					if def := soleDefinition(info, lid); def != nil {
+						low = core.Unparen(def)
+					}
+				}
+				if b, ok := low.(*ast.BinaryExpr); ok && b.Op == token.SUB && lenOrAlias(info, fd, b.X, into) && lenOrAlias(info, fd, b.Y, v) {
 					if st.rel&rGT == 0 {
 						o.Auto("right-aligned; low bound len(%s)-len(%s) >= 0 because the relation excludes '>'", into, v)
 					} else {
